@@ -128,7 +128,7 @@ def run(ctx, replay):
                     dev, ra["invariant"], ra["error"]))
         ctx.cov["mutated_designs_rejected"] = ["NoLifetimeTest", "CloseNoDrain"]
         if thorough:
-            g = ctx.tlc("Pool", None, name="simbig", workers=8, timeout=1500, simulate=20000, depth=600,
+            g = ctx.tlc("Pool", None, name="simbig", workers=8, timeout=1500, simulate=2500, depth=220,   # num is per worker
                         cfg_text=cfg(8, ("k1", "k2", "k3"), mpk=2, mk=2, rounds=2, maxtime=4, breaks=2,
                                      tail="INVARIANTS NoViolation TypeOK OnePlace\n"))
             if not g["ok"]:
